@@ -255,6 +255,14 @@ def confirm_replay(path, timeout=300):
 
 def write_evidence(prop, tier, seed, coverage, assumptions, wall_s, violations):
     os.makedirs(os.path.join(VERIF, 'evidence'), exist_ok=True)
+    if isinstance(coverage, dict) and 'tree_checked' not in coverage:
+        # which source tree the simulated code was imported from (the working tree, committed or not)
+        try:
+            dirty = subprocess.run(['git', '-C', REPO, 'status', '--porcelain', '--', 'src'], capture_output=True, text=True,
+                                   timeout=20).stdout.strip()
+        except Exception:  # noqa: BLE001
+            dirty = ''
+        coverage['tree_checked'] = {'path': REPO, 'head': repo_head(), 'uncommitted_changes_under_src': len(dirty.split('\n')) if dirty else 0}
     doc = {'property_id': prop, 'tier': tier, 'seed': seed, 'level': 'exploration', 'coverage': coverage,
            'assumptions': assumptions, 'wall_s': round(wall_s, 2), 'violations': violations}
     path = os.path.join(VERIF, 'evidence', f'{prop}.json')
